@@ -761,6 +761,9 @@ pub fn install_panic_hook() {
         } else {
             "<non-string panic>".to_string()
         };
+        if std::env::var_os("VERIF_PANIC_VERBOSE").is_some() {
+            eprintln!("panic at {file}:{line}: {message}");
+        }
         LAST_PANIC.with(|p| *p.borrow_mut() = Some(PanicInfo { file, line, message }));
     }));
 }
